@@ -400,6 +400,12 @@ func CheckFile(m Model) string {
 					p("\t\tGet: func(st capnp.Struct) (string, error) { return %s.%s() },", E, F)
 					p("\t\tHas: func(st capnp.Struct) bool { return %s.Has%s() },", E, F)
 					p("\t\tHasDefault: true, Default: %q}, %s)", f.DefText, which)
+					if f.HasDef && f.DefText != "" {
+						// the empty string is a value of its own: it must not read back as the schema's default
+						p("\trt.CheckPtr(t, %s, rt.PtrOps{", strings.Replace(spec, name, name+"/empty", 1))
+						p("\t\tSet: func(st capnp.Struct) (string, error) { return \"\", %s.Set%s(\"\") },", E, F)
+						p("\t\tGet: func(st capnp.Struct) (string, error) { return %s.%s() }}, %s)", E, F, which)
+					}
 				case "data":
 					p("\trt.CheckPtr(t, %s, rt.PtrOps{", spec)
 					p("\t\tSet: func(st capnp.Struct) (string, error) { v := []byte(%q); return string(v), %s.Set%s(v) },", "dat-\x00\xff"+name, E, F)
